@@ -235,6 +235,35 @@ Proof.
 Qed.
 End Refutes.
 
+(* ---------- the reference semantics respects pointwise-equivalent interpretations ---------- *)
+Lemma bformula_sat_equiv W W' T T' sg b : pint_equiv W W' -> pint_equiv T T' ->
+  (bformula_sat W T sg b <-> bformula_sat W' T' sg b).
+Proof.
+  intros EW ET. destruct b as [[sgn a]|c]; cbn; [|tauto].
+  destruct sgn; split; intros [vs [Hv Hx]]; exists vs; split; auto;
+    try (apply EW; exact Hx); try (rewrite <- (ET _ _); exact Hx); try (rewrite (ET _ _); exact Hx).
+Qed.
+Lemma body_sat_equiv W W' T T' sg b : pint_equiv W W' -> pint_equiv T T' ->
+  (body_sat W T sg b <-> body_sat W' T' sg b).
+Proof.
+  intros EW ET. unfold body_sat. rewrite !Forall_forall. split; intros H x Hx; specialize (H x Hx);
+    apply (bformula_sat_equiv W W' T T' sg x EW ET); exact H.
+Qed.
+Lemma head_sat_equiv W W' T T' sg h : pint_equiv W W' -> pint_equiv T T' ->
+  (head_sat W T sg h <-> head_sat W' T' sg h).
+Proof.
+  intros EW ET. destruct h as [a|a|]; cbn; [| |tauto].
+  - split; intros H vs Hv; apply EW, H, Hv.
+  - split; intros H vs Hv; destruct (H vs Hv) as [Hw|Hn];
+      [left; apply EW; exact Hw|right; rewrite <- (ET _ _); exact Hn|left; apply EW; exact Hw|right; rewrite (ET _ _); exact Hn].
+Qed.
+Lemma ref_sat_equiv H H' T T' P : pint_equiv H H' -> pint_equiv T T' -> (ref_sat H T P <-> ref_sat H' T' P).
+Proof.
+  intros EH ET. unfold ref_sat, ref_rule_sat. split; intros Hs r Hr sg; specialize (Hs r Hr sg);
+    rewrite ?(body_sat_equiv H H' T T' sg _ EH ET), ?(head_sat_equiv H H' T T' sg _ EH ET),
+            ?(body_sat_equiv T T' T T' sg _ ET ET), ?(head_sat_equiv T T' T T' sg _ ET ET) in *; exact Hs.
+Qed.
+
 (* ---------- the whole task, modulo the component facts ---------- *)
 Section Task.
 Variable tau_star mu : program -> theory.
@@ -381,5 +410,27 @@ Theorem C03_partial_proof FI M (t : strong_task) :
      ref_sat (Hc M) (T_of M) (st_right t) /\ ~ ref_sat (Hc M) (T_of M) (st_left t)))).
 Proof.
   intros Hn. rewrite (strong_refutes FI M t Hn). rewrite !ht_models_ref. reflexivity.
+Qed.
+
+(* all problems are theorems (no interpretation refutes any of them) exactly when the two programs
+   have the same here-and-there models: strong equivalence *)
+Theorem C03_strong_partial_proof (t : strong_task) :
+  no_symbol_pred_clash t -> st_direction t = DUniversal ->
+  ((forall FI M, ~ refutes_some FI M (strong_decompose tau_star mu simp_ht simp_classic t)) <->
+   (forall H T, sub H T -> (ref_sat H T (st_left t) <-> ref_sat H T (st_right t)))).
+Proof.
+  intros Hn Hd. split.
+  - intros Hnr H T Hs.
+    set (FI0 := mkfint (fun _ => VInf) (fun _ => 0%Z) (fun _ => ""%string)).
+    pose proof (Hnr FI0 (merge H T)) as Hm. rewrite (C03_partial_proof FI0 (merge H T) t Hn), Hd in Hm. cbn [dir_forward dir_backward] in Hm.
+    assert (EH : pint_equiv (Hc (merge H T)) H).
+    { intros p a. unfold Hc, H_of, T_of. cbn. split; [tauto|]. intros Hh; split; [exact Hh|apply Hs, Hh]. }
+    assert (ET : pint_equiv (T_of (merge H T)) T) by (intros p a; unfold T_of; cbn; tauto).
+    rewrite !(ref_sat_equiv _ _ _ _ _ EH ET) in Hm.
+    assert (Hsub : sub_on (strong_predicates (st_left t) (st_right t)) (H_of (merge H T)) (T_of (merge H T))).
+    { intros p a _. unfold H_of, T_of. cbn. apply Hs. }
+    destruct (classic (ref_sat H T (st_left t))) as [Hl|Hl], (classic (ref_sat H T (st_right t))) as [Hr|Hr]; tauto.
+  - intros Heq FI M Hr. rewrite (C03_partial_proof FI M t Hn) in Hr. destruct Hr as [_ Hr].
+    specialize (Heq (Hc M) (T_of M) (Hc_sub M)). tauto.
 Qed.
 End Task.
